@@ -51,7 +51,7 @@ def maxQ : List Rat → Rat
 def minQ : List Rat → Rat
   | [] => 0
   | [a] => a
-  | a :: b :: t => if minQ (b :: t) ≤ a then minQ (b :: t) else a
+  | a :: b :: t => if a ≤ minQ (b :: t) then a else minQ (b :: t)
 
 /- NL semantics: value of a numeric expression; logical expressions evaluate to 0/1 -/
 mutual
@@ -76,6 +76,31 @@ def LE.eval (x : Asg) : LE → Rat
 def LEs.evals (x : Asg) : LEs → List Rat
   | .nil => []
   | .cons l t => l.eval x :: t.evals x
+end
+
+/- every variable leaf is one of the model's variables -/
+mutual
+def NE.vok (n0 : Nat) : NE → Bool
+  | .c _ => true
+  | .v i => decide (i < n0)
+  | .add a b => a.vok n0 && b.vok n0
+  | .mul _ a => a.vok n0
+  | .abs a => a.vok n0
+  | .max as => as.vok n0
+  | .min as => as.vok n0
+  | .ite cnd t e => cnd.vok n0 && t.vok n0 && e.vok n0
+  | .count ls => ls.vok n0
+def NEs.vok (n0 : Nat) : NEs → Bool
+  | .nil => true
+  | .cons a t => a.vok n0 && t.vok n0
+def LE.vok (n0 : Nat) : LE → Bool
+  | .cmp _ a b => a.vok n0 && b.vok n0
+  | .and ls => ls.vok n0
+  | .or ls => ls.vok n0
+  | .not l => l.vok n0
+def LEs.vok (n0 : Nat) : LEs → Bool
+  | .nil => true
+  | .cons l t => l.vok n0 && t.vok n0
 end
 
 /-- an NL model of the fragment -/
@@ -167,20 +192,30 @@ def mkDef (f : Fun) (S : FS) : Var × FS :=
   | none => (S.next, { next := S.next + 1, defs := S.defs ++ [⟨S.next, .none, f⟩], B := setB S.B S.next (resBnd S.B f) })
 
 /-- `Convert2Var(affine expression)` after `sort_terms` -/
-def aff2var (p : Lin × Rat) (S : FS) : Var × FS :=
-  match normLin p.1 with
-  | [(c, v)] => if c = 1 ∧ p.2 = 0 then (v, S) else mkDef (.affine [(c, v)] p.2) S
-  | l => mkDef (.affine l p.2) S
+def aff2varL (l : Lin) (c0 : Rat) (S : FS) : Var × FS :=
+  match l with
+  | [(c, v)] => if c = 1 ∧ c0 = 0 then (v, S) else mkDef (.affine [(c, v)] c0) S
+  | l => mkDef (.affine l c0) S
+def aff2var (p : Lin × Rat) (S : FS) : Var × FS := aff2varL (normLin p.1) p.2 S
 
 /-- `PreprocessConstraint(ConditionalConstraint)`: a body whose first coefficient (after sorting) is negative is negated
 together with the comparison (`IsNormalized` / `negate`); for `==` only the terms and the right-hand side are negated -/
 def flipCmp : Cmp5 → Cmp5
   | .lt => .gt | .le => .ge | .eq => .eq | .ge => .le | .gt => .lt
 
-def normCmp (k : Cmp5) (body : Lin) (rhs : Rat) : Fun :=
-  match body with
-  | (c, _) :: _ => if c < 0 then .condLin (flipCmp k) (negLin body) (-rhs) else .condLin k body rhs
-  | [] => .condLin k body rhs
+def normCmp (neg : Bool) (k : Cmp5) (body : Lin) (rhs : Rat) : Fun :=
+  if neg then .condLin (flipCmp k) (negLin body) (-rhs) else .condLin k body rhs
+
+/-- `LinTerms::sort_terms` re-sorts only when there is a zero coefficient or a repeated variable; `is_normalized` then looks at
+the first coefficient: of the re-sorted terms in that case, of the terms in flattening order otherwise -/
+def needsSort : Lin → Bool
+  | [] => false
+  | (c, v) :: t => c == 0 || t.any (fun p => p.2 == v) || needsSort t
+
+def leadNeg (raw : Lin) : Bool :=
+  match (if needsSort raw then normLin raw else raw) with
+  | (c, _) :: _ => decide (c < 0)
+  | [] => false
 
 mutual
 def flatN : NE → FS → (Lin × Rat) × FS
@@ -229,7 +264,7 @@ def flatL : LE → FS → Var × FS
   | .cmp k a b, S =>
     let r1 := flatN a S
     let r2 := flatN b r1.2
-    mkDef (normCmp k (normLin (r1.1.1 ++ negLin r2.1.1)) (r2.1.2 - r1.1.2)) r2.2
+    mkDef (normCmp (leadNeg (r1.1.1 ++ negLin r2.1.1)) k (normLin (r1.1.1 ++ negLin r2.1.1)) (r2.1.2 - r1.1.2)) r2.2
   | .and ls, S =>
     let r1 := flatLs ls S
     mkDef (.and r1.1) r1.2
@@ -361,6 +396,7 @@ structure Block where
   unmodelled : Bool := false
 
 def isConst (d : Def) : Bool := match d.f with | .affine [] _ => true | _ => false
+def isAffine (d : Def) : Bool := match d.f with | .affine _ _ => true | _ => false
 
 /-- convert the definitions (already in conversion order) -/
 def convDefs (cfg : Cfg) : List Def → Bnds → Nat → List Block
@@ -368,7 +404,7 @@ def convDefs (cfg : Cfg) : List Def → Bnds → Nat → List Block
   | d :: t, B, n =>
     if isConst d then
       { d := d, vars := [], cons := [], lo := n, native := false } :: convDefs cfg t B n
-    else if cfg.acc = .native && !(match d.f with | .affine _ _ => true | _ => false) then
+    else if cfg.acc = .native && !isAffine d then
       { d := d, vars := [], cons := [.func d.res d.ctx d.f], lo := n, native := true } :: convDefs cfg t B n
     else
       let g := gadgetOf d B cfg.opts n
@@ -396,20 +432,33 @@ structure ConvOut where
   blocks : List Block        -- conversion order
   fixTrue : List Var         -- result variables of logical rows (lower bound narrowed to 1 in the delivered model)
 
-def convert (m : NLModel) (cfg : Cfg) : ConvOut :=
+/-- flattening of the whole model: objective, algebraic rows, logical rows -/
+structure FlatAll where
+  obj : Option Obj
+  croots : List Root
+  lroots : List Root
+  S : FS
+
+def flatAll (m : NLModel) : FlatAll :=
   let S0 : FS := { next := m.n0, defs := [], B := m.B0 }
   let ro := flatObj m.obj S0
   let rc := flatCons m.cons ro.2
   let rl := flatLCons m.lcons rc.2
-  let S := rl.2
-  let roots := rc.1 ++ rl.1
-  let defs := (assignCtx S.B S.defs.reverse (addUses (fun _ => .none) (rootUses roots ro.1))).reverse
-  let blocks := convDefs cfg (sortRank defs) S.B S.next
-  let M := S.next + (blocks.map (·.vars.length)).sum
-  let B := blocks.foldl (fun B b => extB B b.lo b.vars) S.B
-  { n0 := m.n0, N := S.next, M := M, B := B, defs := defs, roots := roots, obj := ro.1, blocks := blocks,
-    fixTrue := rl.1.flatMap (fun r => r.body.map (·.2)) }
+  { obj := ro.1, croots := rc.1, lroots := rl.1, S := rl.2 }
 
+/-- the definitions with their final contexts -/
+def ctxDefs (B : Bnds) (defs : List Def) (roots : List Root) (obj : Option Obj) : List Def :=
+  (assignCtx B defs.reverse (addUses (fun _ => .none) (rootUses roots obj))).reverse
+
+def convert (m : NLModel) (cfg : Cfg) : ConvOut :=
+  let fa := flatAll m
+  let roots := fa.croots ++ fa.lroots
+  let defs := ctxDefs fa.S.B fa.S.defs roots fa.obj
+  let blocks := convDefs cfg (sortRank defs) fa.S.B fa.S.next
+  { n0 := m.n0, N := fa.S.next, M := fa.S.next + (blocks.map (·.vars.length)).sum,
+    B := blocks.foldl (fun B b => extB B b.lo b.vars) fa.S.B,
+    defs := defs, roots := roots, obj := fa.obj, blocks := blocks,
+    fixTrue := fa.lroots.flatMap (fun r => r.body.map (·.2)) }
 
 /-! ## inputs on which the real converter takes a preprocessing path this reference converter does not mirror
 (the correspondence skips and counts them; the theorems do not depend on this flag) -/
@@ -440,5 +489,42 @@ def finiteVI (i : VarInfo) : Bool :=
   match i.lb, i.ub with
   | some l, some u => decide (-pracInf < l) && decide (l ≤ u) && decide (u < pracInf)
   | _, _ => false
+
+
+/-! ## decidable well-formedness checks of the converter's own output (membership in the fragment) -/
+
+def isBin01 (i : VarInfo) : Bool := decide (i = VarInfo.binary)
+
+/-- result bounds as created, fragment type, logical arguments binary -/
+def typedDef (B : Bnds) (d : Def) : Bool :=
+  decide (B d.res = resBnd B d.f) && d.f.inFrag &&
+  (match d.f with
+   | .and as => as.all (fun a => isBin01 (B a))
+   | .or as => as.all (fun a => isBin01 (B a))
+   | .count as => as.all (fun a => isBin01 (B a))
+   | .not a => isBin01 (B a)
+   | .ifthen c _ _ => isBin01 (B c)
+   | _ => true)
+
+def finiteRoot (r : Root) : Bool :=
+  (match r.lb with | some l => decide (-pracInf < l) | none => true) &&
+  (match r.ub with | some u => decide (u < pracInf) | none => true)
+
+def ConvOut.checks (m : NLModel) (o : ConvOut) : Bool :=
+  wfB o.n0 o.defs && decide (o.n0 ≤ o.N) &&
+  o.defs.all (fun d => decide (d.res < o.N)) &&
+  (List.range' o.n0 (o.N - o.n0)).all (fun v => isDefined o.defs v) &&
+  (List.range o.n0).all (fun v => decide (o.B v = m.B0 v)) &&
+  o.defs.all (typedDef o.B) &&
+  o.roots.all (fun r => r.body.all (fun p => decide (p.2 < o.N)) && finiteRoot r) &&
+  (ctxGaps o.B o.defs o.roots).isEmpty &&
+  (match o.obj with
+   | some ob => ob.lin.all (fun p => decide (p.2 < o.N)) && ob.quad.isEmpty && (objGaps o.B o.defs ob).isEmpty
+   | none => true)
+
+/-- syntactic part of the fragment: every variable leaf is a variable of the model -/
+def NLModel.vok (m : NLModel) : Bool :=
+  m.cons.all (fun c => c.1.vok m.n0) && m.lcons.all (fun l => l.vok m.n0) &&
+  (match m.obj with | some (_, e) => e.vok m.n0 | none => true)
 
 end MpVerif.C01
